@@ -542,6 +542,7 @@ func runC18(c *Check) {
 	ruleDecodeHooksPassValuesOn(c, p, "C18-R12")
 	ruleFlagsBoundBeforeFileRead(c, p, "C18-R13")
 	ruleFlagsHaveTheLastWord(c, p, "C18-R14")
+	ruleGenesisZeroTimeByInstant(c, p, "C18-R15")
 }
 
 // ruleFlagsBoundBeforeFileRead (C18-R13): while the flags are bound, the loader copies every value
@@ -1360,4 +1361,37 @@ func ruleFlagsHaveTheLastWord(c *Check, p *Prog, rule string) {
 		}
 	}
 	c.MinInstances(rule, 3)
+}
+
+// ruleGenesisZeroTimeByInstant (C18-R15): the genesis validator refuses a start time that is the
+// zero instant. Whether a time is the zero instant is asked of the instant (Time.IsZero), not of
+// the representation: `t == time.Time{}` compares wall, ext and the location pointer, and a zero
+// instant written with an offset ("0001-01-01T00:00:00+00:00") or read in a named location is a
+// different struct — an invalid genesis that the loader then accepts.
+func ruleGenesisZeroTimeByInstant(c *Check, p *Prog, rule string) {
+	c.Doc(rule, "GA: every accepting return of Genesis.Validate is behind the false edge of Time.IsZero on the genesis start time (the instant is tested, not the struct representation, which differs for the same instant written with another offset or location).")
+	fn := p.Func("(" + rootPath + "/pkg/genesis.Genesis).Validate")
+	if fn == nil {
+		c.Unk(rule, "Genesis.Validate", "", "", "anchor lost: the genesis validator")
+		return
+	}
+	g := BuildECFG(p, fn, ownPkgOpts(rootPath+"/pkg/genesis", 1))
+	c.NoteGraph(g)
+	notZero := g.Select(EdgeWhere(func(t *Term, pol bool, _ *Node) bool {
+		t, pol = normFact(t, pol)
+		return !pol && t.Op == "call" && strings.HasSuffix(t.Name, "time.Time).IsZero") && strings.Contains(t.String(), "GenesisDAStartTime")
+	}))
+	var okExits []*Node
+	for _, x := range g.Exits {
+		if g.ExitClass(x) != rcA {
+			okExits = append(okExits, x)
+		}
+	}
+	if len(notZero) == 0 {
+		c.Bad(rule, "Genesis.Validate ⟂ zero start time refused by instant", fnName(fn), p.Pos(fn.Pos()), "the validator does not ask Time.IsZero of the genesis start time: a comparison of the time struct (t == time.Time{}) misses the zero instant written with an offset or held in a named location, and such a genesis is accepted", nil)
+		return
+	}
+	c.Decide(rule, "Genesis.Validate ⟂ zero start time refused by instant", fnName(fn), p.InstrPos(notZero[0].In), "a genesis is accepted only with a start time that is not the zero instant",
+		"the validator can accept a genesis without having found its start time different from the zero instant", g,
+		g.PathAvoiding([]*Node{g.Entry}, nodeSet(okExits), nodeSet(notZero)))
 }
